@@ -65,4 +65,5 @@ func c09(r *Run) {
 	regionRel(r, "urlencode", "url", r.N(1500, 60000))
 	escRuns(r, []string{"u", "l"}, []string{"urlEncode", "linkEscape"}, "urlencode")
 	regionRaw(r, r.N(1500, 40000))
+	escConcurrent(r, append(forms, &escForm{Name: "region", Tpl: "{% urlencode %}{%= v %}|{%= v %}{% endurlencode %}"}), r.N(4000, 100000))
 }
